@@ -83,7 +83,7 @@ def run(ctx):
     if not can_run:
         common.broken_without_input(ctx, "build", ctx.notes[-1] if ctx.notes else "")
         return
-    k = 4 if ctx.thorough() else 1
+    k = ctx.scale(4)
     corpus = gen.text_corpus(ctx.rng, 150 * k, 150 * k, 150 * k, 60 * k)
     fixed = ["", "\n", "\n\n", "main:\n", "a", ".", "..\n", ". .\n", ".word2\n", "#", "#\n", "x#y\n", "'a'\n", "'\\n'\n", "'ab'\n",
              "'\n", "''\n", "'\\q'\n", "\"abc\"\n", "\"a\\nb\"\n", "\"a\nb\"\n", "\"abc", "\"\\q\" li\n", "\"\\u00e9\"\n", "\"\\ud800\"\n",
